@@ -52,15 +52,31 @@ def render_lit(l):
     return l[1]
 
 
+# Layout of attribute arguments.  rustc, syn and serde_derive read all of these identically, so the abstract AST (and the
+# model's input) is the same; what varies is only the *text* the real tool is given (it looks at the text in a few places).
+# The choice is a function of the attribute and of STYLE_SALT (set per check run), so a file always renders the same way.
+STYLE_SALT = [0]
+NV_STYLES = ["%s = %s"] * 6 + ["%s=%s", "%s  =  %s", "%s= %s", "%s /* = */ = %s"]
+LIST_STYLES = [("(", ", ", ")")] * 6 + [("(", ", ", ",)"), ("( ", " , ", " )"), ("(", ",", ")"), ("(", ", ", ", )")]
+
+
+def _style(m, table):
+    import zlib
+    return table[zlib.crc32(("%r|%d" % (m, STYLE_SALT[0])).encode()) % len(table)]
+
+
 def render_meta(m):
     if m[0] == "p":
         return "::".join(m[1])
     if m[0] == "nv":
-        return "%s = %s" % ("::".join(m[1]), render_lit(m[2]))
+        return _style(m, NV_STYLES) % ("::".join(m[1]), render_lit(m[2]))
     if m[0] == "l":
         if not m[2]:
             return "%s(%s)" % ("::".join(m[1]), m[4])
-        return "%s(%s)" % ("::".join(m[1]), ", ".join(render_meta(a) for a in m[3]))
+        if not m[3]:
+            return "%s()" % "::".join(m[1])
+        o, sep, c = _style(m, LIST_STYLES)
+        return "%s%s%s%s" % ("::".join(m[1]), o, sep.join(render_meta(a) for a in m[3]), c)
     raise ValueError(m)
 
 
